@@ -29,7 +29,7 @@ import (
 func init() { props["C16"] = runC16 }
 
 const (
-	c16Actors  = 6
+	c16Actors  = 8 // lives: a slot is one life of an object value (see c16Body)
 	c16Conns   = 3
 	c16Hello   = 100
 	c16Unknown = 999
@@ -47,6 +47,7 @@ type c16Actor struct {
 	entered   chan uint32 // Activate entered with this object id (nil: activate at once)
 	proceed   chan bool   // what Activate returns
 	gate      chan struct{}
+	onTerm    func() // what the termination hook does besides counting (nil: nothing)
 }
 
 func (a *c16Actor) Activate(act bus.Activation, h pong.PingPongSignalHelper) error {
@@ -61,7 +62,15 @@ func (a *c16Actor) Activate(act bus.Activation, h pong.PingPongSignalHelper) err
 	}
 	return nil
 }
-func (a *c16Actor) OnTerminate() { a.mu.Lock(); a.hooks++; a.mu.Unlock() }
+func (a *c16Actor) OnTerminate() {
+	a.mu.Lock()
+	a.hooks++
+	f := a.onTerm
+	a.mu.Unlock()
+	if f != nil {
+		f() // a termination hook that calls back into the service (c16HookReenters)
+	}
+}
 func (a *c16Actor) Hello(s string) (string, error) {
 	a.mu.Lock()
 	g := a.gate
@@ -86,26 +95,55 @@ func (a *c16Actor) counts() (int, int) {
 	return a.hooks, a.execs
 }
 
+// c16Body is the implementor of ONE object value (one pong.PingPongObject, hence one stub, one
+// generic object, one signalHandler).  The same object value may be handed to Service.Add again
+// after its removal or after a failed activation: every such life has its own c16Actor (its own
+// hook / execution / mail counters); the body forwards to the c16Actor of the life that is current.
+// The harness starts a new life only when the mailbox of the previous one is idle (nothing queued,
+// nothing running), so that every call-back is attributed to the right life.
+type c16Body struct {
+	mu  sync.Mutex
+	cur *c16Actor
+}
+
+func (b *c16Body) life() *c16Actor { b.mu.Lock(); defer b.mu.Unlock(); return b.cur }
+func (b *c16Body) setLife(a *c16Actor) {
+	b.mu.Lock()
+	b.cur = a
+	b.mu.Unlock()
+}
+func (b *c16Body) Activate(act bus.Activation, h pong.PingPongSignalHelper) error {
+	return b.life().Activate(act, h)
+}
+func (b *c16Body) OnTerminate()                   { b.life().OnTerminate() }
+func (b *c16Body) Hello(s string) (string, error) { return b.life().Hello(s) }
+func (b *c16Body) Ping(s string) error            { return b.life().Ping(s) }
+
 // c16Wrap is the Actor handed to the service: the generated object, plus a count of the mails its
 // mailbox goroutine has finished with.  This is the event the harness waits on before it observes
 // the effects of a frame — no guess about timing is involved.
 type c16Wrap struct {
 	inner bus.Actor
-	a     *c16Actor
+	body  *c16Body
 }
 
 func (w *c16Wrap) Receive(m *net.Message, from bus.Channel) error {
+	a := w.body.life()
 	err := w.inner.Receive(m, from)
-	w.a.mu.Lock()
-	w.a.processed++
-	w.a.cond.Broadcast()
-	w.a.mu.Unlock()
+	a.mu.Lock()
+	a.processed++
+	a.cond.Broadcast()
+	a.mu.Unlock()
 	return err
 }
 func (w *c16Wrap) Activate(act bus.Activation) error { return w.inner.Activate(act) }
 func (w *c16Wrap) OnTerminate()                      { w.inner.OnTerminate() }
 
-func c16Object(a *c16Actor) bus.Actor { return &c16Wrap{inner: pong.PingPongObject(a), a: a} }
+// c16Object makes a new object value whose first life is a.
+func c16Object(a *c16Actor) *c16Wrap {
+	b := &c16Body{cur: a}
+	return &c16Wrap{inner: pong.PingPongObject(b), body: b}
+}
 
 // waitStarted waits until the method has been entered n times.
 func (a *c16Actor) waitStarted(n int, d time.Duration) bool {
@@ -177,7 +215,11 @@ type c16Run struct {
 	env              *svEnv
 	svc              bus.Service
 	sid              uint32
-	actors           []*c16Actor
+	actors           []*c16Actor // one per life (slot); the model's actor k is slot k
+	obj              []*c16Wrap  // the object value slot k is a life of (nil: not added yet); shared by the lives of one value
+	again            []int       // slot whose object value slot k gives a further life to (-1: a new object value)
+	pendRegs         []int       // registerEvent mails waiting in the held mailbox of slot k
+	lateSub          []bool      // a registerEvent was (or may have been) handled by slot k after its life ended: the subscriber stays in the object value
 	phase            []c16Phase
 	id               []uint32
 	addDone          []chan c16AddRes
@@ -233,7 +275,15 @@ func c16NewRun(res *hx.Result, rng *hx.Rng) (*c16Run, error) {
 	r.enq = make([]int, c16Actors)
 	r.termSent = make([]bool, c16Actors)
 	r.reused = make([]bool, c16Actors)
-	svc, err := env.srv.NewService("probe", c16Object(r.actors[0]))
+	r.obj = make([]*c16Wrap, c16Actors)
+	r.again = make([]int, c16Actors)
+	r.pendRegs = make([]int, c16Actors)
+	r.lateSub = make([]bool, c16Actors)
+	for k := range r.again {
+		r.again[k] = -1
+	}
+	r.obj[0] = c16Object(r.actors[0])
+	svc, err := env.srv.NewService("probe", r.obj[0])
 	if err != nil {
 		return nil, err
 	}
@@ -400,13 +450,51 @@ func (r *c16Run) draws(seed int64) []uint64 {
 	return d
 }
 
-func (r *c16Run) opAddBegin(k int, seed int64) {
+// latest: slot k is the most recent life of its object value
+func (r *c16Run) latest(k int) bool { return r.obj[k] != nil && r.obj[k].body.life() == r.actors[k] }
+
+// idle: nothing is queued or running in the mailbox the service made for slot k
+func (r *c16Run) idle(k int) bool {
+	a := r.actors[k]
+	a.mu.Lock()
+	defer a.mu.Unlock()
+	return !r.gated[k] && len(r.queuedOf[k]) == 0 && a.processed == r.enq[k] && a.gate == nil
+}
+
+// againCandidates: slots whose object value can be handed to Add once more — it has been removed
+// (or its activation failed), it is the latest life of that value, its old mailbox is idle, and no
+// registration was handled after the life ended (a registerEvent accepted before the removal and
+// handled after it leaves a subscriber in the object value, which its next life inherits: state
+// across lives that the model — one actor per life, starting fresh — does not have).
+func (r *c16Run) againCandidates() []int {
+	var out []int
+	for p := range r.actors {
+		if (r.phase[p] == c16phRemoved || r.phase[p] == c16phFailed) && r.latest(p) && r.idle(p) && !r.lateSub[p] {
+			out = append(out, p)
+		}
+	}
+	return out
+}
+
+func (r *c16Run) opAddBegin(k int, seed int64) { r.opAddBeginOf(k, -1, seed) }
+
+// opAddBeginOf starts Service.Add for slot k.  prev < 0: a new object value; otherwise the very
+// object value (same bus.Actor, same stub, same signal handler) that slot prev was a life of.
+func (r *c16Run) opAddBeginOf(k, prev int, seed int64) {
 	a := r.actors[k]
 	done := make(chan c16AddRes, 1)
 	r.addDone[k] = done
+	if prev >= 0 {
+		r.obj[k] = r.obj[prev]
+		r.again[k] = prev
+		r.obj[k].body.setLife(a)
+	} else {
+		r.obj[k] = c16Object(a)
+	}
+	obj := r.obj[k]
 	rand.Seed(seed)
 	go func() {
-		id, err := r.svc.Add(c16Object(a))
+		id, err := r.svc.Add(obj)
 		done <- c16AddRes{id, err}
 	}()
 	var idx *uint32
@@ -420,6 +508,9 @@ func (r *c16Run) opAddBegin(k int, seed int64) {
 		r.dead = true
 	}
 	desc := fmt.Sprintf("AddBegin(actor %d, seed %d)", k, seed)
+	if prev >= 0 {
+		desc = fmt.Sprintf("AddBegin(actor %d = the object value of actor %d handed to Add again, seed %d)", k, prev, seed)
+	}
 	if idx != nil {
 		desc += fmt.Sprintf("->%d", *idx)
 		if o := r.liveAt(*idx, k); o >= 0 {
@@ -452,6 +543,20 @@ func (r *c16Run) opAddBegin(k int, seed int64) {
 	obs, _ := r.observe(false, idx, nil, false)
 	r.record(fmt.Sprintf("PAddBegin %d %s", k, hx.NList(r.draws(seed))), obs, desc)
 }
+
+// A wait that ran into its deadline has been reported as a failure with its input.  The case ends
+// there (what follows it would be judged on a service in an unknown state), and once three waits
+// have expired in a run the remaining ones use a short deadline: the violation is established, the
+// rest of the run only adds detail and must not take minutes.
+var c16Expired int
+
+func c16Wait(d time.Duration) time.Duration {
+	if c16Expired >= 3 {
+		return 300 * time.Millisecond
+	}
+	return d
+}
+func (r *c16Run) expired() { c16Expired++; r.dead = true }
 
 func (r *c16Run) fail(kind, detail, key string) {
 	if key == "" {
@@ -559,6 +664,9 @@ func (r *c16Run) opRemove(id uint32) {
 			r.removedIDs = append(r.removedIDs, id)
 			if id == 1 {
 				r.obj1Gone = true
+			}
+			if r.pendRegs[target] > 0 {
+				r.lateSub[target] = true
 			}
 		}
 	}
@@ -677,12 +785,16 @@ func (r *c16Run) opSend(f c16Frame) {
 		r.enq[owner]++
 		if !held {
 			// wait for the mailbox goroutine itself: it has finished this mail (and every earlier one)
-			if !r.actors[owner].waitProcessed(r.enq[owner], 5*time.Second) {
+			if !r.actors[owner].waitProcessed(r.enq[owner], c16Wait(5*time.Second)) {
 				r.fail("mailbox-stalled", fmt.Sprintf("the mailbox of actor %d did not finish %s within 5 s: %s", owner, desc, r.trace()), "")
+				r.expired()
 			}
 		}
 	}
 	if held {
+		if enqueued && f.act == 3 {
+			r.pendRegs[owner]++
+		}
 		if !f.post {
 			r.queuedOf[owner] = append(r.queuedOf[owner], [2]uint32{uint32(f.conn), f.id})
 		}
@@ -692,9 +804,10 @@ func (r *c16Run) opSend(f c16Frame) {
 	deferred := false
 	var reply *net.Message
 	if !held && !f.post && !noAnswer {
-		reply = r.env.conns[f.conn].waitID(f.id, 3*time.Second)
+		reply = r.env.conns[f.conn].waitID(f.id, c16Wait(3*time.Second))
 		if reply == nil {
 			r.fail("call-unanswered", fmt.Sprintf("no answer within 3 s to %s: %s", desc, r.trace()), "")
+			r.expired()
 		}
 	}
 	if !held && f.post {
@@ -748,12 +861,15 @@ func (r *c16Run) opDrain(k int) {
 	a.mu.Lock()
 	close(a.gate)
 	a.mu.Unlock()
-	if !a.waitProcessed(r.enq[k], 5*time.Second) {
+	if !a.waitProcessed(r.enq[k], c16Wait(5*time.Second)) {
 		r.fail("mailbox-stalled", fmt.Sprintf("the released mailbox of actor %d did not finish its %d mails within 5 s: %s", k, r.enq[k], r.trace()), "")
+		r.expired()
 	}
 	for _, q := range r.queuedOf[k] {
-		if r.env.conns[q[0]].waitSeen(q[1], 3*time.Second) == nil {
+		if r.env.conns[q[0]].waitSeen(q[1], c16Wait(3*time.Second)) == nil {
 			r.fail("call-unanswered", fmt.Sprintf("a call (message id %d) queued in the mailbox of actor %d got no answer within 3 s after the mailbox was released: %s", q[1], k, r.trace()), "")
+			r.expired()
+			break
 		}
 	}
 	r.queuedOf[k] = nil
@@ -764,7 +880,12 @@ func (r *c16Run) opDrain(k int) {
 	desc := fmt.Sprintf("Drain(actor %d)", k)
 	obs, perConn := r.observe(false, nil, nil, false)
 	r.record(fmt.Sprintf("PDrain %d", k), obs, desc)
+	wasLive := r.phase[k] == c16phLive
 	r.reconcile(perConn, "after "+desc)
+	if wasLive && r.phase[k] != c16phLive && r.pendRegs[k] > 0 {
+		r.lateSub[k] = true // its own terminate was among the drained mails, and so were registrations
+	}
+	r.pendRegs[k] = 0
 }
 
 func (r *c16Run) opEmit(k int, sig uint32) {
@@ -775,8 +896,8 @@ func (r *c16Run) opEmit(k int, sig uint32) {
 	if h == nil {
 		return
 	}
-	if sig != 102 {
-		return
+	if sig != 102 || !r.latest(k) {
+		return // the helper belongs to the object value: it speaks for its latest life only
 	}
 	h.SignalPong("e")
 	desc := fmt.Sprintf("Emit(actor %d, signal %d)", k, sig)
@@ -905,7 +1026,13 @@ func (r *c16Run) step() {
 			r.reused[k] = true
 		}
 		r.seeds = append(r.seeds, seed)
-		r.opAddBegin(k, seed)
+		// the second life of an object value: the object of a removed actor, or of one whose activation
+		// failed, is handed to Add again (state kept inside the object survives from its first life)
+		prev := -1
+		if c := r.againCandidates(); len(c) > 0 && r.rng.Chance(0.55) {
+			prev = c[r.rng.Intn(len(c))]
+		}
+		r.opAddBeginOf(k, prev, seed)
 	case x < 30 && len(adding) > 0:
 		k := adding[r.rng.Intn(len(adding))]
 		// a failed activation leaves a nil entry on the pinned code; a terminate handled by a mailbox
@@ -1194,13 +1321,570 @@ func c16Stress(res *hx.Result, rng *hx.Rng, rounds int) {
 	}
 }
 
+// ---------- the second life of an object value (directed, compared with the model) ----------
+
+// c16LifePlans: every way an object value can live 2 or 3 times.  One letter per life — F: the
+// activation fails; R: added, then Service.Remove; T: added, then its own terminate action; D: added,
+// Service.Remove twice (the second one must be refused).  The last life is never F.
+func c16LifePlans(maxLives int) []string {
+	var out []string
+	var rec func(p string)
+	rec = func(p string) {
+		if len(p) >= 2 && p[len(p)-1] != 'F' {
+			out = append(out, p)
+		}
+		if len(p) == maxLives {
+			return
+		}
+		for _, c := range "FRTD" {
+			rec(p + string(c))
+		}
+	}
+	rec("")
+	return out
+}
+
+// c16SecondLife runs one plan on a fresh service.  In every life that is activated clients subscribe,
+// call, the object emits; then the life ends; then the old index is called (must be refused) and the
+// same object value is handed to Add again.  first0: the first life is the service's own object
+// (index 1).  sameSeed: every Add consumes the same random draws (the index of the previous life,
+// now free, is handed out again).  All operations go through the recorded operations, so the case
+// is compared with the model (model actor = one life) and every oracle of the random part applies.
+func c16SecondLife(r *c16Run, plan string, first0, sameSeed bool, nsubs int) {
+	seed := r.nextSeed
+	prev := -1
+	slot := 1
+	for li, c := range plan {
+		if r.dead {
+			return
+		}
+		k := slot
+		if li == 0 && first0 {
+			k = 0 // already live under index 1
+		} else {
+			if !sameSeed {
+				seed++
+			}
+			if prev >= 0 && !(r.latest(prev) && r.idle(prev)) {
+				r.fail("harness-second-life", fmt.Sprintf("the mailbox of actor %d is not idle after its life ended: %s", prev, r.trace()), "")
+				return
+			}
+			r.opAddBeginOf(k, prev, seed)
+			if r.phase[k] != c16phAdding {
+				return
+			}
+			// the index is reserved, the object is inside Activate: a call now is dropped or refused, never executed
+			r.opSend(c16Frame{conn: li % c16Conns, obj: r.id[k], act: 0})
+			r.opAddEnd(k, c != 'F')
+			slot++
+		}
+		prev = k
+		if c == 'F' {
+			// what a failed activation leaves behind must not be reachable
+			r.opSend(c16Frame{conn: 0, obj: r.id[k], act: 0})
+			continue
+		}
+		if r.phase[k] != c16phLive {
+			return
+		}
+		id := r.id[k]
+		for j := 0; j < nsubs; j++ {
+			sig := uint32(102)
+			if j == 2 {
+				sig = 103
+			}
+			arg := id
+			if j%2 == 1 {
+				arg = 0
+			}
+			r.opSend(c16Frame{conn: (li + j) % c16Conns, obj: id, act: 3, arg: arg, sig: sig, uid: uint64(r.nextUID)})
+			r.nextUID++
+		}
+		r.opSend(c16Frame{conn: 1, obj: id, act: 0})
+		r.opEmit(k, 102)
+		switch c {
+		case 'R':
+			r.opRemove(id)
+		case 'D':
+			r.opRemove(id)
+			r.opRemove(id)
+		case 'T':
+			arg := id
+			if li%2 == 1 {
+				arg = 0
+			}
+			r.opSend(c16Frame{conn: 2, obj: id, act: 2, arg: arg})
+		}
+		if r.phase[k] != c16phRemoved {
+			r.fail("not-terminated", fmt.Sprintf("actor %d (index %d) was removed / sent its own terminate action but its termination hook has not run: %s", k, id, r.trace()), "")
+			return
+		}
+		r.opSend(c16Frame{conn: 0, obj: id, act: 0})
+		r.opEmit(k, 102)
+	}
+}
+
+func c16SecondLives(res *hx.Result, rng *hx.Rng, cf *hx.Cases, tier string) {
+	maxLives := 3
+	plans := c16LifePlans(maxLives)
+	n := 0
+	for pi, plan := range plans {
+		for variant := 0; variant < 4; variant++ {
+			first0 := variant&1 == 1
+			sameSeed := variant&2 == 2
+			if first0 && plan[0] == 'F' {
+				continue // the service's own object was activated when the service was made
+			}
+			if tier != "thorough" && len(plan) == 3 && (pi+variant)%4 != 0 {
+				continue // quick: every plan of two lives in all variants, a quarter of the plans of three lives
+			}
+			r, err := c16NewRun(res, rng)
+			if err != nil {
+				res.Fail("harness-setup", err.Error())
+				return
+			}
+			r.allow1 = true
+			c16SecondLife(r, plan, first0, sameSeed, 1+(pi+variant)%3)
+			r.epilogue()
+			r.finish()
+			res.Count(strings.Join(r.ops, "|"), true)
+			res.Dist("second-life-plan:" + plan)
+			cf.Add("tcases", r.caseTerm(), fmt.Sprintf("lives %s first0=%v sameSeed=%v: %s", plan, first0, sameSeed, r.trace()))
+			n++
+		}
+	}
+	res.Notes = append(res.Notes, fmt.Sprintf("second lives: %d directed cases over the plans %s (F failed activation, R removed, T own terminate, D removed twice), each life with subscribers, calls and an emission", n, strings.Join(plans, " ")))
+}
+
+// ---------- one object value that is a member twice (oracles only) ----------
+
+// c16Shared hands ONE object value to Add twice without removing it in between — to two services
+// (even rounds) or twice to the same service (odd rounds) — so that it is live under two
+// identifiers at once, then ends the two memberships one after the other and starts a third.  The
+// model has one membership per actor, so this part is judged by oracles on the implementation only:
+// every removal runs the termination hook exactly once; a subscriber is told exactly once, at the
+// latest when the membership it subscribed through ends; a removed identifier is refused without
+// executing; the other membership stays callable; a second Remove of the same identifier is refused.
+func c16Shared(res *hx.Result, rng *hx.Rng, rounds int) {
+	for round := 0; round < rounds; round++ {
+		r, err := c16NewRun(res, rng)
+		if err != nil {
+			res.Fail("harness-setup", err.Error())
+			return
+		}
+		two := round%2 == 0
+		type member struct {
+			svc bus.Service
+			sid uint32
+			id  uint32
+		}
+		type subscr struct {
+			conn    int
+			mid     uint32
+			via     int
+			notices int
+			events  int
+		}
+		var steps []string
+		note := func(f string, a ...interface{}) { steps = append(steps, fmt.Sprintf(f, a...)) }
+		failed := false
+		fail := func(kind, f string, a ...interface{}) {
+			failed = true
+			res.Fail(kind, fmt.Sprintf(f, a...)+" — after: "+strings.Join(steps, " ; "))
+		}
+		m := make([]member, 2)
+		m[0] = member{svc: r.svc, sid: r.sid}
+		m[1] = m[0]
+		if two {
+			main2 := &c16Actor{k: 100}
+			main2.cond = sync.NewCond(&main2.mu)
+			svc2, err := r.env.srv.NewService("probe2", c16Object(main2))
+			if err != nil {
+				res.Fail("harness-setup", err.Error())
+				r.finish()
+				return
+			}
+			m[1] = member{svc: svc2, sid: svc2.ServiceID()}
+			note("two services %d and %d", m[0].sid, m[1].sid)
+		} else {
+			note("one service %d", m[0].sid)
+		}
+		a := &c16Actor{k: 101}
+		a.cond = sync.NewCond(&a.mu)
+		obj := c16Object(a)
+		add := func(i int) bool {
+			rand.Seed(r.nextSeed)
+			r.nextSeed++
+			id, err := m[i].svc.Add(obj)
+			if err != nil {
+				fail("add-refused", "Add of the object value to service %d failed: %v", m[i].sid, err)
+				return false
+			}
+			m[i].id = id
+			note("Add(obj) to service %d -> %d", m[i].sid, id)
+			return true
+		}
+		var subs []*subscr
+		// collect: barrier on every connection, then count termination notices and events per subscriber
+		collect := func() {
+			r.env.syncAll()
+			for ci, c := range r.env.conns {
+				for _, fm := range c.take() {
+					for _, sb := range subs {
+						if sb.conn != ci || fm.Header.ID != sb.mid {
+							continue
+						}
+						if fm.Header.Type == net.Event {
+							sb.events++
+						} else if svTypeCode(&fm) == 2 {
+							sb.notices++
+						}
+					}
+				}
+			}
+		}
+		subscribe := func(via, conn int) *subscr {
+			mid := r.nextMsg
+			r.nextMsg++
+			uid := r.nextUID
+			r.nextUID++
+			r.env.conns[conn].send(net.Call, m[via].sid, m[via].id, 0, mid, append(svU32(0, 102), svU32(uid, 0)...))
+			rep := r.env.conns[conn].waitID(mid, c16Wait(3*time.Second))
+			note("connection %d subscribes to signal 102 through (service %d, object %d), message id %d", conn, m[via].sid, m[via].id, mid)
+			if rep == nil || rep.Header.Type != net.Reply {
+				fail("live-object-not-callable", "registerEvent sent to a live identifier of the object was not accepted")
+				return nil
+			}
+			r.env.conns[conn].take()
+			sb := &subscr{conn: conn, mid: mid, via: via}
+			subs = append(subs, sb)
+			return sb
+		}
+		// call: the method through membership i; wantExec: it must run (true) or be refused with ObjectNotFound (false)
+		call := func(i int, wantExec bool) {
+			conn := r.rng.Intn(c16Conns)
+			mid := r.nextMsg
+			r.nextMsg++
+			_, before := a.counts()
+			r.env.conns[conn].send(net.Call, m[i].sid, m[i].id, c16Hello, mid, svStr("x"))
+			rep := r.env.conns[conn].waitID(mid, c16Wait(3*time.Second))
+			_, after := a.counts()
+			note("call hello(service %d, object %d)", m[i].sid, m[i].id)
+			switch {
+			case rep == nil:
+				fail("call-unanswered", "no answer within 3 s")
+				c16Expired++
+			case wantExec && (rep.Header.Type != net.Reply || after != before+1):
+				fail("live-object-not-callable", "the object is live under (service %d, object %d) but the call was answered with type code %d, executions %d -> %d", m[i].sid, m[i].id, svTypeCode(rep), before, after)
+			case !wantExec && (svTypeCode(rep) != 1 || after != before):
+				fail("reachable-after-removal", "(service %d, object %d) was removed but a call to it was answered with type code %d, executions %d -> %d", m[i].sid, m[i].id, svTypeCode(rep), before, after)
+			}
+		}
+		emit := func() {
+			a.mu.Lock()
+			h := a.helper
+			a.mu.Unlock()
+			before := make([]int, len(subs))
+			for i, sb := range subs {
+				before[i] = sb.events
+			}
+			h.SignalPong("e")
+			note("the object emits signal 102")
+			collect()
+			for i, sb := range subs {
+				got := sb.events - before[i]
+				if sb.notices > 0 && got != 0 {
+					fail("event-after-termination", "subscriber (connection %d, message id %d) received %d events after its termination notice", sb.conn, sb.mid, got)
+				}
+				if sb.notices == 0 && got != 1 {
+					fail("subscriber-of-live-object-lost", "subscriber (connection %d, message id %d), not told of any termination, received %d events for one emission", sb.conn, sb.mid, got)
+				}
+			}
+		}
+		hooksWant := 0
+		remove := func(i int, wantOK bool) {
+			err := m[i].svc.Remove(m[i].id)
+			note("Service.Remove(%d) on service %d -> err=%v", m[i].id, m[i].sid, err != nil)
+			if wantOK {
+				hooksWant++
+			}
+			if wantOK && err != nil {
+				fail("remove-refused", "Remove of a live identifier failed: %v", err)
+			}
+			if !wantOK && err == nil {
+				fail("removed-twice", "the second Remove of the same identifier reported success")
+			}
+			collect()
+			if h, _ := a.counts(); h != hooksWant {
+				kind := "hook-not-run"
+				if h > hooksWant {
+					kind = "terminated-twice"
+				}
+				fail(kind, "the termination hook of the object has run %d times after %d removals of it", h, hooksWant)
+			}
+			for _, sb := range subs {
+				if sb.notices > 1 {
+					fail("subscriber-told-twice", "subscriber (connection %d, message id %d) received %d termination notices", sb.conn, sb.mid, sb.notices)
+				}
+				if wantOK && sb.via == i && sb.notices != 1 {
+					fail("subscriber-not-told", "subscriber (connection %d, message id %d) subscribed through (service %d, object %d); that identifier was removed and it received %d termination notices", sb.conn, sb.mid, m[i].sid, m[i].id, sb.notices)
+				}
+			}
+		}
+		func() {
+			if !add(0) || !add(1) {
+				return
+			}
+			if !two && m[0].id == m[1].id {
+				fail("id-not-unique", "two Adds to one service returned the same identifier %d", m[0].id)
+				return
+			}
+			subscribe(0, 0)
+			subscribe(1, 1)
+			if round%3 == 0 {
+				subscribe(0, 2)
+			}
+			call(0, true)
+			call(1, true)
+			emit()
+			first := rng.Intn(2)
+			second := 1 - first
+			remove(first, true)
+			call(first, false)
+			call(second, true)
+			if failed {
+				return
+			}
+			for _, sb := range subs {
+				sb.via = -1 // told or not, their turn is over: exactly one notice by the end (checked below)
+			}
+			late := subscribe(second, 2)
+			emit()
+			remove(first, false)
+			call(second, true)
+			remove(second, true)
+			call(second, false)
+			call(first, false)
+			if late != nil && late.notices != 1 {
+				fail("subscriber-not-told", "subscriber (connection %d, message id %d) subscribed after the first membership ended; at the end of the second it has %d termination notices", late.conn, late.mid, late.notices)
+			}
+			for _, sb := range subs {
+				if sb.notices != 1 {
+					fail("subscriber-not-told", "both memberships of the object have ended; subscriber (connection %d, message id %d) received %d termination notices", sb.conn, sb.mid, sb.notices)
+				}
+			}
+			if failed {
+				return
+			}
+			// a third membership of the same object value
+			subs = nil
+			if !add(first) {
+				return
+			}
+			subscribe(first, 1)
+			call(first, true)
+			emit()
+			remove(first, true)
+			call(first, false)
+			remove(first, false)
+		}()
+		r.finish()
+		res.Count(fmt.Sprintf("shared %d %v", round, two), true)
+		res.Dist(fmt.Sprintf("one-object-two-memberships:two-services=%v", two))
+	}
+}
+
+// ---------- termination hooks that call back into the service (oracles only) ----------
+
+func c16NewActor(k int) *c16Actor {
+	a := &c16Actor{k: k}
+	a.cond = sync.NewCond(&a.mu)
+	return a
+}
+
+// c16HookReenters: the termination hook of an owner object uses the service it is being removed
+// from — it removes a child object (round%3 == 0), adds a new object (1), or hands its own object
+// value to Add again, so that its second life begins inside the hook of the first (2).  Oracles:
+// Service.Remove returns; the hook ran once per removal; the owner's subscriber is told once; the
+// old identifier is refused; an unrelated object still answers; the child is terminated and refused
+// / the new object answers / the owner answers under its new identifier and its second life ends
+// like the first (hook once more, its new subscriber told, refused afterwards).
+func c16HookReenters(res *hx.Result, rng *hx.Rng, rounds int) {
+	for round := 0; round < rounds; round++ {
+		r, err := c16NewRun(res, rng)
+		if err != nil {
+			res.Fail("harness-setup", err.Error())
+			return
+		}
+		variant := round % 3
+		var steps []string
+		note := func(f string, a ...interface{}) { steps = append(steps, fmt.Sprintf(f, a...)) }
+		fail := func(kind, f string, a ...interface{}) {
+			res.Fail(kind, fmt.Sprintf(f, a...)+" — after: "+strings.Join(steps, " ; "))
+		}
+		owner, child, other, extra := c16NewActor(200), c16NewActor(201), c16NewActor(202), c16NewActor(203)
+		ownerObj := c16Object(owner)
+		add := func(name string, o bus.Actor) (uint32, bool) {
+			rand.Seed(r.nextSeed)
+			r.nextSeed++
+			id, err := r.svc.Add(o)
+			note("Add(%s) -> %d, err=%v", name, id, err != nil)
+			if err != nil {
+				fail("add-refused", "Add(%s) failed: %v", name, err)
+			}
+			return id, err == nil
+		}
+		// call: the method of actor a under identifier id must run (want) or be refused with ObjectNotFound
+		call := func(id uint32, a *c16Actor, want bool) {
+			mid := r.nextMsg
+			r.nextMsg++
+			_, before := a.counts()
+			r.env.conns[1].send(net.Call, r.sid, id, c16Hello, mid, svStr("x"))
+			rep := r.env.conns[1].waitID(mid, c16Wait(3*time.Second))
+			_, after := a.counts()
+			note("call hello(object %d)", id)
+			switch {
+			case rep == nil:
+				fail("call-unanswered", "no answer within 3 s")
+				c16Expired++
+			case want && (rep.Header.Type != net.Reply || after != before+1):
+				fail("live-object-not-callable", "object %d is live but the call was answered with type code %d, executions %d -> %d", id, svTypeCode(rep), before, after)
+			case !want && (svTypeCode(rep) != 1 || after != before):
+				fail("reachable-after-removal", "object %d was removed but a call to it was answered with type code %d, executions %d -> %d", id, svTypeCode(rep), before, after)
+			}
+		}
+		subscribe := func(id uint32, conn int) uint32 {
+			mid := r.nextMsg
+			r.nextMsg++
+			r.env.conns[conn].send(net.Call, r.sid, id, 0, mid, append(svU32(0, 102), svU32(r.nextUID, 0)...))
+			r.nextUID++
+			rep := r.env.conns[conn].waitID(mid, c16Wait(3*time.Second))
+			note("connection %d subscribes to signal 102 of object %d, message id %d", conn, id, mid)
+			if rep == nil || rep.Header.Type != net.Reply {
+				fail("live-object-not-callable", "registerEvent sent to live object %d was not accepted", id)
+			}
+			return mid
+		}
+		notices := func(conn int, mid uint32) int { // termination notices received for a subscription so far
+			r.env.conns[conn].sync()
+			n := 0
+			r.env.conns[conn].mu.Lock()
+			for i := range r.env.conns[conn].got {
+				fm := &r.env.conns[conn].got[i]
+				if fm.Header.ID == mid && fm.Header.Type == net.Error && svTypeCode(fm) == 2 {
+					n++
+				}
+			}
+			r.env.conns[conn].mu.Unlock()
+			return n
+		}
+		remove := func(id uint32) bool {
+			done := make(chan error, 1)
+			go func() { done <- r.svc.Remove(id) }()
+			select {
+			case err := <-done:
+				note("Service.Remove(%d) -> err=%v", id, err != nil)
+				if err != nil {
+					fail("remove-refused", "Remove of live object %d failed: %v", id, err)
+				}
+				return err == nil
+			case <-time.After(c16Wait(5 * time.Second)):
+				note("Service.Remove(%d)", id)
+				fail("remove-stalled", "Service.Remove(%d) did not return within 5 s: the termination hook of the object calls back into the service", id)
+				c16Expired++
+				return false
+			}
+		}
+		func() {
+			idO, ok1 := add("owner", ownerObj)
+			idC, ok2 := add("child", c16Object(child))
+			idX, ok3 := add("other", c16Object(other))
+			if !ok1 || !ok2 || !ok3 {
+				return
+			}
+			var newID uint32
+			var hookErr error
+			ran := 0
+			owner.mu.Lock()
+			owner.onTerm = func() {
+				ran++
+				if ran > 1 {
+					return
+				}
+				switch variant {
+				case 0:
+					hookErr = r.svc.Remove(idC)
+				case 1:
+					rand.Seed(r.nextSeed)
+					newID, hookErr = r.svc.Add(c16Object(extra))
+				case 2:
+					rand.Seed(r.nextSeed)
+					newID, hookErr = r.svc.Add(ownerObj)
+				}
+			}
+			owner.mu.Unlock()
+			note("the termination hook of the owner will %s", [...]string{"remove the child with Service.Remove", "add a new object with Service.Add", "hand the owner's own object value to Service.Add again"}[variant])
+			mid := subscribe(idO, 0)
+			call(idO, owner, true)
+			if !remove(idO) {
+				return
+			}
+			if hookErr != nil {
+				fail("hook-call-refused", "the service refused the call made by the termination hook: %v", hookErr)
+				return
+			}
+			if h, _ := owner.counts(); h != 1 {
+				fail("hook-not-run", "the termination hook of the owner has run %d times after its removal", h)
+			}
+			if n := notices(0, mid); n != 1 {
+				fail("subscriber-not-told", "the subscriber (connection 0, message id %d) of the removed owner received %d termination notices", mid, n)
+			}
+			call(idO, owner, false)
+			call(idX, other, true)
+			switch variant {
+			case 0:
+				if h, _ := child.counts(); h != 1 {
+					fail("hook-not-run", "the child was removed by the owner's hook; its own termination hook has run %d times", h)
+				}
+				call(idC, child, false)
+			case 1:
+				call(newID, extra, true)
+				call(idC, child, true)
+			case 2:
+				note("the hook's Add returned %d", newID)
+				call(newID, owner, true)
+				mid2 := subscribe(newID, 2)
+				if !remove(newID) {
+					return
+				}
+				if h, _ := owner.counts(); h != 2 {
+					fail("hook-not-run", "the owner's object value lived twice and was removed twice; its termination hook has run %d times", h)
+				}
+				if n := notices(2, mid2); n != 1 {
+					fail("subscriber-not-told", "the subscriber (connection 2, message id %d) of the owner's second life received %d termination notices", mid2, n)
+				}
+				if n := notices(0, mid); n != 1 {
+					fail("subscriber-told-twice", "the subscriber of the first life has %d termination notices after the end of the second", n)
+				}
+				call(newID, owner, false)
+				call(idC, child, true)
+			}
+		}()
+		r.finish()
+		res.Count(fmt.Sprintf("hook-reenters %d", round), true)
+		res.Dist(fmt.Sprintf("termination-hook-calls-the-service:variant=%d", variant))
+	}
+}
+
 // ---------- exhaustive small scope ----------
 
-// c16Exhaustive runs every sequence of length 1..maxLen over eight operations on two objects:
-// add the next object, remove object A / B, call A / B, A's own terminate, subscribe to A, A emits.
-// Operations on an object that has not been added yet address an unknown index.
+// c16Exhaustive runs every sequence of length 1..maxLen over nine operations on two objects:
+// add the next object, remove object A / B, call A / B, A's own terminate, subscribe to A, A emits,
+// hand A's object value to Add again (A then names its new life; sequences in which A has not been
+// removed at that point are skipped).  Operations on an object that has not been added yet address
+// an unknown index.
 func c16Exhaustive(res *hx.Result, rng *hx.Rng, cf *hx.Cases, maxLen int) {
-	const k = 8
+	const k = 9
 	for l := 1; l <= maxLen; l++ {
 		total := 1
 		for i := 0; i < l; i++ {
@@ -1212,19 +1896,24 @@ func c16Exhaustive(res *hx.Result, rng *hx.Rng, cf *hx.Cases, maxLen int) {
 				res.Fail("harness-setup", err.Error())
 				return
 			}
+			slotA := 1 // the latest life of object A
 			idOf := func(a int) uint32 {
+				if a == 1 {
+					a = slotA
+				}
 				if r.phase[a] == c16phFresh {
 					return 7777
 				}
 				return r.id[a]
 			}
 			c := code
-			for i := 0; i < l && !r.dead; i++ {
+			skip := false
+			for i := 0; i < l && !r.dead && !skip; i++ {
 				op := c % k
 				c /= k
 				switch op {
 				case 0:
-					for a := 1; a < c16Actors; a++ {
+					for a := 1; a < 5; a++ {
 						if r.phase[a] == c16phFresh {
 							seed := r.nextSeed
 							r.nextSeed++
@@ -1245,10 +1934,32 @@ func c16Exhaustive(res *hx.Result, rng *hx.Rng, cf *hx.Cases, maxLen int) {
 					r.opSend(c16Frame{conn: 0, obj: idOf(1), act: 3, arg: 0, sig: 102, uid: uint64(r.nextUID)})
 					r.nextUID++
 				case 7:
-					if r.phase[1] != c16phFresh {
-						r.opEmit(1, 102)
+					if r.phase[slotA] != c16phFresh {
+						r.opEmit(slotA, 102)
 					}
+				case 8:
+					next := -1
+					for a := c16Actors - 1; a > slotA && a >= 5; a-- { // further lives of A take the slots 5, 6, 7
+						if r.phase[a] == c16phFresh {
+							next = a
+						}
+					}
+					if r.phase[slotA] != c16phRemoved || next < 0 || !r.idle(slotA) {
+						skip = true
+						break
+					}
+					seed := r.nextSeed
+					r.nextSeed++
+					r.opAddBeginOf(next, slotA, seed)
+					if r.phase[next] == c16phAdding {
+						r.opAddEnd(next, true)
+					}
+					slotA = next
 				}
+			}
+			if skip {
+				r.finish()
+				continue
 			}
 			r.epilogue()
 			r.finish()
@@ -1377,10 +2088,11 @@ func c16BusyRemove(res *hx.Result) {
 }
 
 func runC16(res *hx.Result, rng *hx.Rng, tier string, outdir string) {
-	res.Rule = "operation sequences (about 40 operations) over 6 actors, 3 connections, 2 signals on a real bus.Service: Add in two halves with " +
+	res.Rule = "operation sequences (about 40 operations) over 8 lives of object values (the object of a removed actor or of a failed activation is handed to Add again in about half of the Adds that could), 3 connections, 2 signals on a real bus.Service: Add in two halves with " +
 		"operations inside Activate, seeds reused to force index collisions, failing activations, Remove of live/removed/pending/failed/unknown " +
 		"indices, call/post × method/terminate/registerEvent/unknown action to live, removed, pending and unknown indices, mailboxes held by a gate and " +
-		"released, signal emission; every case ends with a call to every live and every removed object; " +
+		"released, signal emission; every case ends with a call to every live and every removed object; directed cases for every plan of 2 or 3 lives of one object value " +
+		"(failed activation / removed / own terminate / removed twice, same or new index, subscribers in every life); one object value live under two identifiers (two services, or twice in one); " +
 		"non-trivial = a call or a subscription happens after a removal; distinct by sha256 of the operation list"
 	nCases := 120
 	if tier == "thorough" {
@@ -1428,9 +2140,12 @@ func runC16(res *hx.Result, rng *hx.Rng, tier string, outdir string) {
 	if tier == "thorough" {
 		c16Exhaustive(res, rng, cf, 4)
 		res.Exhaustive = true
-		res.Notes = append(res.Notes, "exhaustive part: every sequence of length <= 4 over {add next object, remove A, remove B, call A, call B, terminate A, subscribe to A, A emits} (4680 sequences), each followed by a call to every live and every removed object")
+		res.Notes = append(res.Notes, "exhaustive part: every sequence of length <= 4 over {add next object, remove A, remove B, call A, call B, terminate A, subscribe to A, A emits, add A's object value again} (those in which A is removed when it is added again), each followed by a call to every live and every removed object")
 	}
+	c16SecondLives(res, rng, cf, tier)
 	cf.Flush()
+	c16Shared(res, rng, map[bool]int{false: 12, true: 60}[tier == "thorough"])
+	c16HookReenters(res, rng, map[bool]int{false: 6, true: 30}[tier == "thorough"])
 	rounds := 40
 	if tier == "thorough" {
 		rounds = 400
